@@ -22,6 +22,7 @@ import pickle
 import shutil
 import signal
 import tempfile
+import threading
 import traceback
 
 import numpy as np
@@ -63,7 +64,7 @@ ASSUMPTIONS = [
 ]
 
 CRASH_CODE = 17
-CHILD_TIMEOUT_S = 300
+CHILD_TIMEOUT_S = 120
 MDO_ALGOS = ["SLSQP", "L-BFGS-B", "NLOPT_COBYLA"]
 DOE_ALGOS = ["LHS", "PYDOE_FULLFACT", "CustomDOE"]
 GRADIENT_ALGOS = {"SLSQP", "L-BFGS-B"}
@@ -80,13 +81,10 @@ def n_workers(ctx) -> int:
 
 # --------------------------------------------------------------------------- strategy
 @st.composite
-def configs(draw, kind: str):
+def configs(draw, algo: str):
+    kind = "mdo" if algo in MDO_ALGOS else "doe"
     n_x = draw(st.integers(1, 2))
     budget = draw(st.integers(5, 15))
-    if kind == "mdo":
-        algo = draw(st.sampled_from(MDO_ALGOS))
-    else:
-        algo = draw(st.sampled_from(DOE_ALGOS))
     p = {
         "kind": kind,
         "algo": algo,
@@ -107,6 +105,7 @@ def configs(draw, kind: str):
         "normalize": draw(st.booleans()) if kind == "mdo" else False,
         "budget": budget,
         "reset": draw(st.sampled_from([False, False, True])),
+        "maximize": draw(st.sampled_from([False, False, False, True])),
     }
     if kind == "doe":
         p["eval_jac"] = draw(st.booleans())
@@ -221,7 +220,7 @@ def build_scenario(p, hook):
     ds.add_variable("x", p["n_x"], lower_bound=lb, upper_bound=ub, value=_grid_point(p, p["x0"]))
     scenario = create_scenario(
         make_disciplines(p, hook), "f", ds, formulation_name="DisciplinaryOpt",
-        scenario_type="MDO" if p["kind"] == "mdo" else "DOE",
+        scenario_type="MDO" if p["kind"] == "mdo" else "DOE", maximize_objective=bool(p.get("maximize", False)),
     )
     if has_constraint(p):
         scenario.add_constraint("g", constraint_type="ineq")
@@ -241,6 +240,9 @@ def algo_settings(p, reset: bool | None):
                 kw["seed"] = p["seed"]
     if reset is not None:
         kw["reset_iteration_counters"] = reset
+    # no tqdm bar: its class-wide multiprocessing lock and monitor thread would be shared with / copied into the
+    # forked children, and a child killed while its monitor thread holds that lock blocks every other process
+    kw["enable_progress_bar"] = False
     return kw
 
 
@@ -303,6 +305,7 @@ def child_run(p, path, mode: str, crash_at: int | None, record_stores: bool):
         "final": snapshot(database),
         "n_exec": state["n"],
         "ineq_tolerance": float(problem.tolerances.inequality),
+        "objective_name": str(problem.objective.name),  # "f", or "-f" when maximising (the stored, minimised quantity)
         "result": {
             "x_opt": None if result.x_opt is None else np.array(result.x_opt, copy=True),
             "f_opt": None if result.f_opt is None else float(np.atleast_1d(result.f_opt)[0]),
@@ -313,6 +316,8 @@ def child_run(p, path, mode: str, crash_at: int | None, record_stores: bool):
 
 
 def _spawn(fn, out_path: str) -> int:
+    if threading.active_count() != 1:
+        raise HarnessError(f"C12: {threading.active_count()} threads alive before a fork: {[t.name for t in threading.enumerate()]}")
     pid = os.fork()
     if pid != 0:
         return pid
@@ -457,11 +462,14 @@ def warm_up():
     if _WARM["done"]:
         return
     import h5py  # noqa: F401
+    import tqdm
     from gemseo.algos.database import Database  # noqa: F401
+
+    tqdm.tqdm.monitor_interval = 0  # never start a monitor thread in a process that forks
 
     base = {"n_x": 1, "n_disc": 2, "bounds": 0, "x0": [3], "a": [1], "w": [1], "c": 0, "u": 0, "s": [1], "t": 0, "r": 1,
             "policy": "call", "initial": "absent", "prefix_at": 0, "normalize": False, "budget": 2, "reset": False,
-            "eval_jac": False, "seed": 1, "samples": [[1], [2]]}
+            "maximize": False, "eval_jac": False, "seed": 1, "samples": [[1], [2]]}
     for kind, algos in (("mdo", MDO_ALGOS), ("doe", DOE_ALGOS)):
         for algo in algos:
             p = dict(base, kind=kind, algo=algo)
@@ -474,6 +482,7 @@ def descriptor(p) -> str:
     return "/".join([
         p["kind"], p["algo"], f"disc{p['n_disc']}", f"x{p['n_x']}", p["policy"], p["initial"],
         "norm" if p["normalize"] else "phys", f"b{p['budget']}", "reset" if p["reset"] else "keep",
+        "max" if p.get("maximize") else "min",
     ])
 
 
@@ -535,7 +544,8 @@ def _case(p, ctx, work, workers):
     n_full = len(ref["final"])
     n_crash = ref["n_exec"]
     ctx.cls(f"kind_{p['kind']}", f"algo_{p['algo']}", f"policy_{policy}", f"initial_{initial_mode}", f"disciplines_{p['n_disc']}",
-            "normalized" if p["normalize"] else "not_normalized", "restart_reset_counters" if p["reset"] else "restart_keeps_counters")
+            "normalized" if p["normalize"] else "not_normalized", "restart_reset_counters" if p["reset"] else "restart_keeps_counters",
+            "maximize" if p.get("maximize") else "minimize")
     if n_crash == 0:
         ctx.cls("loaded_prefix_leaves_nothing_to_execute")
         return
@@ -627,13 +637,19 @@ def _case(p, ctx, work, workers):
         # optimum at least as good as the best loaded one
         tol = rs["ineq_tolerance"]
         res = rs["result"]
-        complete = [vals for _, vals in backup if "f" in vals and ("g" in vals or not has_constraint(p))]
-        feasible = [float(np.atleast_1d(vals["f"])[0]) for vals in complete if not has_constraint(p) or bool(np.all(np.asarray(vals["g"]) <= tol))]
+        obj = rs["objective_name"]
+        complete = [vals for _, vals in backup if obj in vals and ("g" in vals or not has_constraint(p))]
+        feasible = [float(np.atleast_1d(vals[obj])[0]) for vals in complete if not has_constraint(p) or bool(np.all(np.asarray(vals["g"]) <= tol))]
         if feasible:
             best = min(feasible)
             ctx.check(res["is_feasible"], "optimum", f"restart after crash {k}: reported optimum infeasible, the backup holds a feasible point", k=k)
-            ctx.check(res["f_opt"] is not None and res["f_opt"] <= best, "optimum",
-                      f"restart after crash {k}: reported objective {res['f_opt']}, the backup holds a feasible point with {best}", k=k)
+            # the stored (standardised: minimised) objective at the reported point; no sign convention of f_opt involved
+            i_opt = index.get(np.asarray(res["x_opt"], dtype=float).tobytes()) if res["x_opt"] is not None else None
+            ctx.check(i_opt is not None and obj in final[i_opt][1], "optimum",
+                      f"restart after crash {k}: reported optimum {res['x_opt']} has no recorded objective", k=k)
+            reported = float(np.atleast_1d(final[i_opt][1][obj])[0])
+            ctx.check(reported <= best, "optimum",
+                      f"restart after crash {k}: reported point has {obj} = {reported}, the backup holds a feasible point with {best}", k=k)
             ctx.cls("restart_with_feasible_loaded_point")
         elif complete and not res["is_feasible"]:
             g_rep = res["constraints"].get("g")
@@ -662,19 +678,14 @@ def _case(p, ctx, work, workers):
                 "backup_sizes": [len(backups[k]) for k in sorted(backups)]})
 
 
-def case_mdo(p, ctx):
-    case_crash(p, ctx)
-
-
-def case_doe(p, ctx):
-    case_crash(p, ctx)
-
-
-ORACLES = {"crash_mdo": case_mdo, "crash_doe": case_doe}
+# one oracle (one Hypothesis stream, one bucket of failures) per algorithm: every run covers all six
+ORACLES = {f"crash_{algo}": case_crash for algo in [*MDO_ALGOS, *DOE_ALGOS]}
+QUICK = {"SLSQP": 6, "L-BFGS-B": 4, "NLOPT_COBYLA": 5, "LHS": 4, "PYDOE_FULLFACT": 4, "CustomDOE": 4}
+THOROUGH = {"SLSQP": 10, "L-BFGS-B": 7, "NLOPT_COBYLA": 8, "LHS": 6, "PYDOE_FULLFACT": 6, "CustomDOE": 7}
 
 
 def run(ctx):
     warm_up()
     ctx.extra["max_children_in_parallel_per_process"] = n_workers(ctx)
-    ctx.drive("crash_mdo", configs("mdo"), case_mdo, quick=20, thorough=30)
-    ctx.drive("crash_doe", configs("doe"), case_doe, quick=14, thorough=20)
+    for algo in [*MDO_ALGOS, *DOE_ALGOS]:
+        ctx.drive(f"crash_{algo}", configs(algo), case_crash, quick=QUICK[algo], thorough=THOROUGH[algo])
